@@ -93,8 +93,8 @@ func newMSession(id, uuid string) *MSession {
 // Exp is a group of messages expected in any order among themselves.
 type Exp struct {
 	Msgs      []proto.Message
-	Optional  bool // the whole group may be absent
-	AnyOrigin bool // origin_timestamp is not determined by the request
+	Optional  bool                       // the whole group may be absent
+	AnyOrigin bool                       // origin_timestamp is not determined by the request
 	Pred      func(proto.Message) string // alternative to Msgs: a predicate on one message ("" = ok)
 	Desc      string
 }
